@@ -136,6 +136,9 @@ class FakeBlob:
         self.gates = {}
         self.completion = []
 
+    def close(self):
+        """(azure's BlobClient can be closed as well)"""
+
     def download_blob(self, offset=None, length=None):
         with self.lock:
             k = len(self.log)
